@@ -47,6 +47,21 @@ type AllPriv struct {
 	count fp.Option[int]
 }
 
+type Audit struct {
+	Rev int
+	By  string
+}
+
+// an embedded struct is one member, encoded under its type name - also when a key of the outer struct has the
+// same name as a key inside it
+// @fp.Value
+// @fp.Json
+type Order struct {
+	Audit
+	id  string
+	Rev int
+}
+
 // @fp.Value
 // @fp.Json
 type Nest struct {
@@ -241,6 +256,56 @@ func VH_c15_allprivate_struct() {
 	if z.UnmarshalJSON(in) != nil {
 		zz.Assert(z.id == before.id && optEq(z.count, before.count), "all-private struct: UnmarshalJSON leaves the target unchanged on error")
 	}
+}
+
+// ---- declaration level: the public Mutable twin that is handed to encoding/json has exactly these fields, json
+// names (the declared tag, else the declared field name) and omitempty on string, pointer, slice and Option
+// fields. Assignability to an unnamed struct type requires identical field names, types, tags and order, so a
+// deviation is a compile error of this harness, reported as a violation.
+var _ struct {
+	Id   int            ` + "`json:\"id\"`" + `
+	Name string         ` + "`json:\"name,omitempty\"`" + `
+	Ok   bool           ` + "`json:\"ok\"`" + `
+	Opt  fp.Option[int] ` + "`json:\"opt,omitempty\"`" + `
+	Ptr  *int           ` + "`json:\"ptr,omitempty\"`" + `
+	List []int          ` + "`json:\"list,omitempty\"`" + `
+	Pub  string         ` + "`json:\"Pub,omitempty\"`" + `
+} = RecMutable{}
+
+var _ struct {
+	A int               ` + "`json:\"alpha\"`" + `
+	B fp.Option[string] ` + "`json:\"beta,omitempty\"`" + `
+} = TaggedMutable{}
+
+var _ struct {
+	ID    int            ` + "`json:\"ID\"`" + `
+	Name  string         ` + "`json:\"Name,omitempty\"`" + `
+	Count fp.Option[int] ` + "`json:\"Count,omitempty\"`" + `
+	Tags  []int          ` + "`json:\"tags,omitempty\"`" + `
+} = AllPubMutable{}
+
+var _ struct {
+	Id    int            ` + "`json:\"id\"`" + `
+	Count fp.Option[int] ` + "`json:\"count,omitempty\"`" + `
+} = AllPrivMutable{}
+
+var _ struct {
+	R Rec                       ` + "`json:\"r\"`" + `
+	N fp.Option[fp.Option[int]] ` + "`json:\"n,omitempty\"`" + `
+} = NestMutable{}
+
+var _ struct {
+	Audit ` + "`json:\"Audit\"`" + `
+	Id    string ` + "`json:\"id,omitempty\"`" + `
+	Rev   int    ` + "`json:\"Rev\"`" + `
+} = OrderMutable{}
+
+func VH_c15_embedded_struct() {
+	x := Order{Audit: Audit{Rev: zz.Int("x.a.rev"), By: zz.Str("x.a.by", 1)}, id: zz.Str("x.id", 1), Rev: zz.Int("x.rev")}
+	b, err := x.MarshalJSON()
+	y := Order{Audit: Audit{Rev: zz.Int("y.a.rev")}, Rev: zz.Int("y.rev")}
+	err2 := y.UnmarshalJSON(b)
+	zz.Assert(err == nil && err2 == nil && y.Audit == x.Audit && y.id == x.id && y.Rev == x.Rev, "Unmarshal(Marshal(x)) = x for an @fp.Json struct with an embedded struct whose key clashes with an outer key")
 }
 
 func VH_c15_tagged_and_nested() {
